@@ -86,6 +86,13 @@ int vf_cs_entry_v;                /* ghost: abstract value of the guarded object
 struct vf_atomic_int { int v; };
 struct vf_atomic_bool { _Bool v; };
 struct vf_atomic_ptr { void *v; };
+struct vf_atomic_unsigned_short { unsigned short v; };
+struct vf_atomic_short { short v; };
+struct vf_atomic_unsigned_char { unsigned char v; };
+struct vf_atomic_signed_char { signed char v; };
+struct vf_atomic_unsigned_int { unsigned int v; };
+struct vf_atomic_long { long v; };
+struct vf_atomic_unsigned_long { unsigned long v; };
 
 /* ---- abstract payload (user type T) -------------------------------------------------- */
 #define VF_RAW 0
